@@ -258,6 +258,17 @@ func c05HostileMessage(r *core.Rand, tag int) (*gtfsrt.FeedMessage, []string) {
 		addUnrelatedNyctData(r, m)
 	}
 	var kinds []string
+	if r.Chance(1, 3) {
+		// every optional sub-message (also inside the NYCT / Mercury payloads) present but EMPTY
+		for _, e := range m.Entity {
+			if e.Alert != nil && r.Bool() && !proto.HasExtension(e.Alert, gtfsrt.E_MercuryAlert) {
+				proto.SetExtension(e.Alert, gtfsrt.E_MercuryAlert, &gtfsrt.MercuryAlert{CreatedAt: rgen.U64(1), UpdatedAt: rgen.U64(2), AlertType: rgen.S("x")})
+			}
+		}
+		if k := rgen.AddEmptySubmessages(r, m, 1, 3); k > 0 {
+			kinds = append(kinds, "present-but-empty-submessages")
+		}
+	}
 	n := r.Intn(6)
 	for k := 0; k < n && len(m.Entity) > 0; k++ {
 		e := core.Pick(r, m.Entity)
